@@ -148,25 +148,67 @@ class Model(object):
 # fake directory under the real object layer
 # --------------------------------------------------------------------------
 
-class FakeLdap(object):
-    """dn -> {attribute: [values]}; the subset of _ldap.Admin that
-    LdapObject.get/list/create/update/delete reach."""
+class _Standard(object):
+    """connection.extend.standard of the stand-in."""
 
-    root_ou = 'ou=treadmill,dc=verif'
+    def __init__(self, conn):
+        self._conn = conn
+
+    def paged_search(self, search_base, search_filter,
+                     search_scope='SUBTREE', dereference_aliases=None,
+                     attributes=None, paged_size=100,
+                     paged_criticality=False, generator=True, **_kwargs):
+        assert generator
+        return self._generate(search_base, search_filter, search_scope,
+                              attributes)
+
+    def _generate(self, search_base, search_filter, search_scope,
+                  attributes):
+        # ldap3.extend.standard.PagedSearch.paged_search_generator: the
+        # search runs when the generator is first advanced; the connection
+        # does not raise (raise_exceptions=False), the outcome is left in
+        # connection.result; entries are handed out with responses.pop().
+        conn = self._conn
+        conn.search(search_base, search_filter, search_scope,
+                    attributes=attributes)
+        responses = list(conn.response)
+        while responses:
+            yield responses.pop()
+        conn.response = None
+
+
+class _Extend(object):
+    def __init__(self, conn):
+        self.standard = _Standard(conn)
+
+
+class FakeConnection(object):
+    """In-memory stand-in for the ldap3.Connection that treadmill.admin
+    opens (sync strategy, raise_exceptions=False, return_empty_attributes=
+    False): dn -> {attribute: [str values]}.
+
+    Semantics kept: an operation never raises, its outcome is in `.result`
+    (0 success, 32 noSuchObject, 68 entryAlreadyExists, 16 noSuchAttribute);
+    BASE / SUBTREE scope; filters are (attr=value), (attr=*) and (&...) of
+    those; an equality or presence clause on an attribute the entry does not
+    have is simply false; attribute names and values compare ignoring case;
+    asking for an attribute returns its ';option' subtypes too.
+    """
+
+    raise_exceptions = False
 
     def __init__(self):
         self.entries = {}
-        self.log = []
+        self.result = None
+        self.response = None
+        self.extend = _Extend(self)
+        self.ops = 0
 
-    def dn(self, parts):
-        return ','.join(parts + [self.root_ou])
-
-    @staticmethod
-    def _raise(kind, code, dn):
-        from ldap3.core import exceptions as ldap_exceptions
-        cls = getattr(ldap_exceptions, kind)
-        raise cls(result=code, description=kind, dn=dn, message='',
-                  response_type='fake')
+    def _done(self, code, description, dn, kind):
+        self.result = {'result': code, 'description': description, 'dn': dn,
+                       'message': '', 'type': kind, 'referrals': None,
+                       'controls': {}}
+        return code == 0
 
     @staticmethod
     def _clauses(search_filter):
@@ -180,96 +222,120 @@ class FakeLdap(object):
         return clauses
 
     @staticmethod
-    def _matches(entry, clauses):
-        for key, value in clauses:
+    def _values(entry, attr):
+        """Values of `attr` (any option subtype), None if absent."""
+        found = None
+        for key, values in entry.items():
+            if key.split(';')[0].lower() == attr.lower():
+                found = (found or []) + list(values)
+        return found
+
+    def _matches(self, entry, clauses):
+        for attr, value in clauses:
+            have = self._values(entry, attr)
+            if have is None:
+                return False            # absent attribute matches nothing
             if value == '*':
-                if key.lower() == 'objectclass':
-                    continue
-                if not entry.get(key):
-                    return False
                 continue
-            if value not in [str(v) for v in entry.get(key, [])]:
+            if value.lower() not in [v.lower() for v in have]:
                 return False
         return True
 
-    def paged_search(self, search_base=None, search_filter=None,
-                     search_scope='SUBTREE', attributes=None, dirty=False):
+    def search(self, search_base, search_filter, search_scope='SUBTREE',
+               dereference_aliases=None, attributes=None, **_kwargs):
+        self.ops += 1
         clauses = self._clauses(search_filter)
+        self.response = []
+        # (the ou= containers are not materialised: a SUBTREE search under
+        # an empty container succeeds with no entries)
         if search_scope == 'BASE':
             if search_base not in self.entries:
-                self._raise('LDAPNoSuchObjectResult', 32, search_base)
+                return self._done(32, 'noSuchObject', search_base,
+                                  'searchResDone')
             cands = [search_base]
         else:
             cands = sorted(
                 dn for dn in self.entries
-                if dn == search_base or dn.endswith(',' + search_base)
-            )
+                if dn == search_base or dn.endswith(',' + search_base))
         wanted = None
         if attributes is not None and '*' not in attributes:
             wanted = set(attr.lower() for attr in attributes)
-        out = []
         for dn in cands:
-            if self._matches(self.entries[dn], clauses):
-                # a requested attribute brings its option subtypes with it
-                out.append({'dn': dn, 'attributes': {
-                    key: list(values)
-                    for key, values in self.entries[dn].items()
-                    if wanted is None or
-                    key.split(';')[0].lower() in wanted
-                }})
-        return iter(out)
+            entry = self.entries[dn]
+            if not self._matches(entry, clauses):
+                continue
+            attrs = {
+                key: list(values) for key, values in entry.items()
+                if wanted is None or key.split(';')[0].lower() in wanted
+            }
+            self.response.append({'dn': dn, 'attributes': attrs,
+                                  'raw_attributes': attrs,
+                                  'type': 'searchResEntry'})
+        return self._done(0, 'success', '', 'searchResDone')
 
-    def get(self, dn, query, attrs, paged_search=True, dirty=False):
-        result = self.paged_search(search_base=dn, search_filter=query,
-                                   search_scope='BASE', attributes=attrs,
-                                   dirty=dirty)
-        return next(iter(result), {}).get('attributes')
-
-    def create(self, dn, entry):
+    def add(self, dn, object_class=None, attributes=None):
+        self.ops += 1
         if dn in self.entries:
-            self._raise('LDAPEntryAlreadyExistsResult', 68, dn)
-        self.log.append(('create', dn))
-        self.entries[dn] = {
-            key: [str(v) for v in values]
-            for key, values in copy.deepcopy(entry).items()
-        }
+            return self._done(68, 'entryAlreadyExists', dn, 'addResponse')
+        entry = {}
+        for key, values in (attributes or {}).items():
+            if not isinstance(values, (list, tuple)):
+                values = [values]
+            if not values:
+                raise AssertionError('harness: add with empty %r' % key)
+            entry[key] = [str(v) for v in values]
+        self.entries[dn] = entry
+        return self._done(0, 'success', '', 'addResponse')
 
-    def update(self, dn, new_entry):
+    def modify(self, dn, changes):
         import ldap3
-        from treadmill.admin import _ldap
-        old_entry = self.get(
-            dn, '(objectClass=*)',
-            _ldap._entry_plain_keys(new_entry),  # pylint: disable=W0212
-            dirty=True)
-        diff = _ldap._diff_entries(old_entry, new_entry)  # pylint: disable=W0212
-        self.log.append(('update', dn))
-        entry = self.entries[dn]
-        for attr, changes in diff.items():
-            for kind, values in changes:
+        self.ops += 1
+        if dn not in self.entries:
+            return self._done(32, 'noSuchObject', dn, 'modifyResponse')
+        entry = dict(self.entries[dn])
+        for attr, mods in changes.items():
+            for kind, values in mods:
+                keys = [k for k in entry if k.lower() == attr.lower()]
                 if kind == ldap3.MODIFY_DELETE:
-                    entry.pop(attr, None)
+                    if not keys:
+                        return self._done(16, 'noSuchAttribute', dn,
+                                          'modifyResponse')
+                    for key in keys:
+                        del entry[key]
                 elif kind in (ldap3.MODIFY_ADD, ldap3.MODIFY_REPLACE):
-                    entry[attr] = [str(v) for v in values]
+                    for key in keys:
+                        del entry[key]
+                    if values:
+                        entry[attr] = [str(v) for v in values]
                 else:
                     raise AssertionError('harness: modify op %r' % (kind,))
+        self.entries[dn] = entry
+        return self._done(0, 'success', '', 'modifyResponse')
 
     def delete(self, dn):
+        self.ops += 1
         if dn not in self.entries:
-            self._raise('LDAPNoSuchObjectResult', 32, dn)
-        self.log.append(('delete', dn))
+            return self._done(32, 'noSuchObject', dn, 'delResponse')
         del self.entries[dn]
+        return self._done(0, 'success', '', 'delResponse')
+
+    def unbind(self):
+        pass
 
 
 class Directory(object):
-    """Real admin objects over the fake directory."""
+    """The real admin stack (AdminLdapBackend -> WrappedAdmin -> _ldap.Admin
+    and the _ldap object classes) over FakeConnection."""
 
     def __init__(self):
-        from treadmill import admin
-        from treadmill.admin import _ldap
-        self.ldap = FakeLdap()
-        wrapped = admin.WrappedAdmin(self.ldap)
-        self.cell_alloc = _ldap.CellAllocation(wrapped)
-        self.partition = _ldap.Partition(wrapped)
+        from treadmill.admin import ldapbackend
+        self.conn = FakeConnection()
+        self.backend = ldapbackend.AdminLdapBackend('ldap://verif',
+                                                    'dc=verif')
+        admin = self.backend._ldap_conn      # pylint: disable=W0212
+        admin.ldap = admin.write_ldap = self.conn
+        self.cell_alloc = self.backend.cell_allocation()
+        self.partition = self.backend.partition()
 
 
 # --------------------------------------------------------------------------
@@ -496,7 +562,8 @@ def cases(draw, max_ops=8):
                 traits = None
                 eff_traits = old_traits
             else:
-                traits = draw_traits(cell, pname, prefer=old_traits)
+                traits = draw_traits(cell, pname or DEFAULT_PARTITION,
+                                     prefer=old_traits)
                 eff_traits = traits
                 if not traits:
                     # LdapObject.update cannot clear a list attribute (an
@@ -506,6 +573,11 @@ def cases(draw, max_ops=8):
             eff_part = pname
             if not send_partition:
                 eff_part = old['partition'] if old else pname
+            elif draw(st.integers(0, 11)) == 0:
+                # explicit "partition": null (schema: string or null): the
+                # attribute is dropped, the record reads back as _default
+                pname = None
+                eff_part = DEFAULT_PARTITION
         else:
             if draw(st.integers(0, 11)) == 0 and known:
                 rid = draw(st.sampled_from(known))   # create over existing
@@ -526,13 +598,19 @@ def cases(draw, max_ops=8):
             send_partition = not (pname == DEFAULT_PARTITION and
                                   draw(st.integers(0, 2)) == 0)
             eff_part = pname
+            if DEFAULT_PARTITION in part_names and \
+                    draw(st.integers(0, 9)) == 0:
+                # key present with JSON null instead of omitted / named
+                send_partition = True
+                pname = None
+                eff_part = DEFAULT_PARTITION
             # aim at traits other reservations of that partition carry
             carried = set()
             for orid, rsv in model.rsv.items():
                 if orid != rid and rsv['cell'] == cell and \
-                        rsv['partition'] == pname:
+                        rsv['partition'] == eff_part:
                     carried.update(rsv['traits'])
-            traits = draw_traits(cell, pname, prefer=carried)
+            traits = draw_traits(cell, eff_part, prefer=carried)
             if not traits and draw(st.booleans()):
                 traits = None
             eff_traits = traits or []
